@@ -241,10 +241,29 @@ impl<T: Send> MpmcShared<T> {
   }
 
   pub(crate) fn try_recv_core(&self) -> Result<T, TryRecvError> {
+    self.try_recv_core_for(core::ptr::null())
+  }
+
+  /// Removes the waiter record whose state pointer is `own` (the polling
+  /// future's inline state) from `waiting_async_receivers`. Called in the
+  /// locked section in which that future's poll resolves, so a future that was
+  /// still registered never leaves a record (a raw pointer into itself) behind.
+  #[inline]
+  fn unlink_async_receiver(guard: &mut MpmcChannelInternal<T>, own: *const AtomicU8) {
+    if !own.is_null() && !guard.waiting_async_receivers.is_empty() {
+      guard.waiting_async_receivers.retain(|w| w.state != own);
+    }
+  }
+
+  /// `try_recv_core` on behalf of the receive future whose inline state is `own`
+  /// (null: not a future). Whenever the result resolves the future (an item or
+  /// Disconnected) its own record is unlinked before the lock is released.
+  pub(crate) fn try_recv_core_for(&self, own: *const AtomicU8) -> Result<T, TryRecvError> {
     let mut guard = self.internal.lock();
 
     // --- Priority 1: Check the main buffer first (Preserves strict FIFO) ---
     if let Some(item) = guard.pop_front() {
+      Self::unlink_async_receiver(&mut guard, own);
       if self.capacity > 0 {
         let mut i = 0;
         while i < guard.waiting_async_senders.len() {
@@ -293,6 +312,7 @@ impl<T: Send> MpmcShared<T> {
     }
 
     if guard.sender_count == 0 {
+      Self::unlink_async_receiver(&mut guard, own);
       return Err(TryRecvError::Disconnected);
     }
 
@@ -404,6 +424,16 @@ impl<T: Send> MpmcShared<T> {
     out: &mut Vec<T>,
     max: usize,
   ) -> Result<usize, TryRecvError> {
+    self.try_recv_batch_core_for(core::ptr::null(), out, max)
+  }
+
+  /// Batch counterpart of `try_recv_core_for`.
+  pub(crate) fn try_recv_batch_core_for(
+    &self,
+    own: *const AtomicU8,
+    out: &mut Vec<T>,
+    max: usize,
+  ) -> Result<usize, TryRecvError> {
     if max == 0 {
       return Ok(0);
     }
@@ -415,6 +445,7 @@ impl<T: Send> MpmcShared<T> {
     if from_buffer > 0 {
       guard.drain_into(out, from_buffer);
       got += from_buffer;
+      Self::unlink_async_receiver(&mut guard, own);
     }
 
     // --- Priority 2: Wake buffered senders (inside the lock) ---
@@ -467,6 +498,7 @@ impl<T: Send> MpmcShared<T> {
 
     if got == 0 {
       if guard.sender_count == 0 {
+        Self::unlink_async_receiver(&mut guard, own);
         Err(TryRecvError::Disconnected)
       } else {
         Err(TryRecvError::Empty)
@@ -488,7 +520,7 @@ impl<T: Send> MpmcShared<T> {
       return Poll::Ready(Ok(0));
     }
     'poll_loop: loop {
-      match self.try_recv_batch_core(out, max) {
+      match self.try_recv_batch_core_for(state_ptr, out, max) {
         Ok(k) => return Poll::Ready(Ok(k)),
         Err(TryRecvError::Disconnected) => return Poll::Ready(Err(RecvError::Disconnected)),
         Err(TryRecvError::Empty) => {}
@@ -506,6 +538,7 @@ impl<T: Send> MpmcShared<T> {
         }
 
         if guard.sender_count == 0 {
+          Self::unlink_async_receiver(&mut guard, state_ptr);
           return Poll::Ready(Err(RecvError::Disconnected));
         }
 
@@ -538,7 +571,7 @@ impl<T: Send> MpmcShared<T> {
     state_ptr: *const AtomicU8,
   ) -> Poll<Result<T, RecvError>> {
     'poll_loop: loop {
-      match self.try_recv_core() {
+      match self.try_recv_core_for(state_ptr) {
         Ok(item) => {
           return Poll::Ready(Ok(item));
         }
@@ -558,6 +591,7 @@ impl<T: Send> MpmcShared<T> {
         }
 
         if guard.sender_count == 0 {
+          Self::unlink_async_receiver(&mut guard, state_ptr);
           return Poll::Ready(Err(RecvError::Disconnected));
         }
 
